@@ -130,7 +130,7 @@ func c22RunReader(tb ev.TB, rec *ev.Rec, c *c22RCase, gen string) {
 	br := bfe_bufio.NewReaderSize(r1, c.Buf)
 	sr := bufio.NewReaderSize(r2, c.Buf)
 	pos := 0
-	lastRead := ""   // kind of the immediately preceding successful consuming op
+	lastRead := "" // kind of the immediately preceding successful consuming op
 	lastRuneSize := 0
 	var crossedRefill, longLine, unread, crStraddle, sawEOF, unreadAfterLine bool
 	stop, stdLost := false, false
@@ -668,6 +668,18 @@ func c22GenWriter(rt *rapid.T) *c22WCase {
 
 func TestC22(t *testing.T) {
 	rec := ev.New("C22", "reader scripts: 1..40 ops of Read(1..buf+8)/ReadByte/UnreadByte/ReadRune/UnreadRune/ReadSlice/ReadLine/ReadBytes/ReadString/Peek(0..buf+2)/WriteTo/Buffered on NewReaderSize(16..40) over streams of 0..60 tokens from {a,b,x,LF,CR,CRLF,SP,2/3/4-byte UTF-8, invalid bytes} with long delimiter-free runs, underlying reader delivering cyclic chunk plans (1..48 bytes, never (0,nil), EOF with or after the last bytes, optionally an io.WriterTo); Unread* only directly after a successful read (the documented use). writer scripts: 1..30 ops of Write/WriteString/WriteByte/WriteRune/ReadFrom/Flush on NewWriterSize(1..40) over a never-failing sink (optionally io.ReaderFrom). bfe_bufio vs std bufio in lock-step + stream position + per-op counter deltas. non-trivial: a reader op crosses a refill with bytes already buffered or meets a line longer than the buffer; a writer op flushes in mid-operation; distinct by full script")
+	if w := replayWitness(t); w != nil {
+		if w["writer_case"] != nil {
+			c := &c22WCase{}
+			replayInto(t, w["writer_case"], c)
+			c22RunWriter(t, rec, c, "replay")
+		} else {
+			c := &c22RCase{}
+			replayInto(t, w["reader_case"], c)
+			c22RunReader(t, rec, c, "replay")
+		}
+		return
+	}
 	// deterministic scenarios: header line split over two TCP segments; CR at the end of a full buffer
 	c22RunReader(t, rec, &c22RCase{Buf: 16, Stream: fmt.Sprintf("%x", "GET / HTTP/1.1\r\nHost: a\r\n\r\n"), Chunks: []int{5, 7, 30}, Ops: []c22ROp{{Op: "ReadLine"}, {Op: "ReadLine"}, {Op: "ReadLine"}, {Op: "ReadLine"}}}, "scenario")
 	c22RunReader(t, rec, &c22RCase{Buf: 16, Stream: fmt.Sprintf("%x", "aaaaaaaaaaaaaaa\r\nbbbb\n"), Chunks: []int{48}, Ops: []c22ROp{{Op: "ReadLine"}, {Op: "ReadLine"}, {Op: "ReadLine"}, {Op: "ReadLine"}}}, "scenario")
